@@ -1,3 +1,1167 @@
+//! Bounded differential witness for unit C02 (labelled BOUNDED, never counted as proved).
+//!
+//! Assembles real MIPS32 (big + little endian) and PPC32 (big endian) instruction words, lifts them with the REAL
+//! translators (`falcon::translator::mips::{Mips, Mipsel}`, `falcon::translator::ppc::Ppc`) through
+//! `Translator::translate_function`, executes the IL with `falcon::executor::Driver` from several initial states until
+//! a landing pad (a `nop` behind the code under test / at a branch target) is reached, and compares all GPRs, HI/LO,
+//! LR/CTR/CA/CR bits, a 32-byte data window and the next pc with an INDEPENDENT interpreter of the machine words
+//! written from the architecture manuals (the interpreter decodes the 32-bit words itself; it shares nothing with
+//! the lifter, and nothing with the little assembler below except the word).
+//! Output: one JSON line per disagreement (at most 3 printed per op key, all counted), then one summary line.
+//! Environment: C02_ONLY=<substring of op key> restricts the run, C02_DEBUG=1 prints the lifted IL of every case to
+//! stderr, C02_PRINT=n overrides the per-op print limit.
+use falcon::architecture;
+use falcon::architecture::Endian;
+use falcon::executor::{Driver, Memory, State};
+use falcon::il;
+use falcon::memory;
+use falcon::translator::mips::{Mips as TMips, Mipsel as TMipsel};
+use falcon::translator::ppc::Ppc as TPpc;
+use falcon::translator::Translator;
+use falcon::RC;
+use std::collections::BTreeMap;
+use std::panic::{catch_unwind, AssertUnwindSafe};
+
+const CODE: u32 = 0x1000; // code under test, followed by nops (landing pads)
+const CODE_WORDS: usize = 12;
+const FAR: u32 = 0x2000; // second region of nops, target of register-indirect transfers
+const FAR_WORDS: usize = 8;
+const DATA: u32 = 0x4000; // data window
+const DATA_LEN: usize = 32;
+const MID: u32 = DATA + 16;
+
+#[derive(Clone, Copy, PartialEq, Eq, Debug)]
+enum Arch { Mips, Mipsel, Ppc }
+impl Arch {
+    fn key(self) -> &'static str { match self { Arch::Mips => "mips", Arch::Mipsel => "mipsel", Arch::Ppc => "ppc" } }
+    fn big(self) -> bool { self != Arch::Mipsel }
+    fn endian(self) -> Endian { if self.big() { Endian::Big } else { Endian::Little } }
+    fn is_mips(self) -> bool { self != Arch::Ppc }
+    fn nop(self) -> u32 { if self.is_mips() { 0 } else { 0x6000_0000 } }
+}
+
+/// a location of the architectural state
+#[derive(Clone, Copy, PartialEq, Eq, Debug)]
+enum Loc { G(u8), Hi, Lo, Lr, Ctr, Ca, Cr(u8) }
+
+const MIPS_NAMES: [&str; 32] = ["$zero", "$at", "$v0", "$v1", "$a0", "$a1", "$a2", "$a3", "$t0", "$t1", "$t2", "$t3", "$t4", "$t5", "$t6", "$t7",
+    "$s0", "$s1", "$s2", "$s3", "$s4", "$s5", "$s6", "$s7", "$t8", "$t9", "$k0", "$k1", "$gp", "$sp", "$fp", "$ra"];
+const CRB: [&str; 4] = ["lt", "gt", "eq", "so"];
+
+fn loc_name(arch: Arch, l: Loc) -> String {
+    match l {
+        Loc::G(i) => if arch.is_mips() { MIPS_NAMES[i as usize].to_string() } else { format!("r{}", i) },
+        Loc::Hi => "$hi".to_string(),
+        Loc::Lo => "$lo".to_string(),
+        Loc::Lr => "lr".to_string(),
+        Loc::Ctr => "ctr".to_string(),
+        Loc::Ca => "carry".to_string(),
+        Loc::Cr(i) => format!("cr{}-{}", i / 4, CRB[(i % 4) as usize]),
+    }
+}
+
+// ------------------------------------------------------------------ the independent machine model
+#[derive(Clone)]
+struct Cpu {
+    r: [u32; 32],
+    hi: u32, lo: u32,
+    lr: u32, ctr: u32, ca: bool,
+    /// the 32-bit CR, PowerPC bit numbering: CR bit i is (cr >> (31 - i)) & 1 ; bit 0 = cr0.lt
+    cr: u32,
+    mem: [u8; DATA_LEN],
+    /// set by the model when the manual leaves HI/LO unpredictable (mul)
+    hilo_undef: bool,
+    /// CR bits (same numbering as `cr`, as a mask with bit i at 31 - i) whose value is not compared (copies of XER[SO])
+    cr_undef: u32,
+}
+
+impl Cpu {
+    fn crbit(&self, i: u32) -> bool { (self.cr >> (31 - i)) & 1 == 1 }
+    fn set_crbit(&mut self, i: u32, v: bool) { let m = 1u32 << (31 - i); if v { self.cr |= m } else { self.cr &= !m } }
+    fn get(&self, l: Loc) -> u32 {
+        match l { Loc::G(i) => self.r[i as usize], Loc::Hi => self.hi, Loc::Lo => self.lo, Loc::Lr => self.lr, Loc::Ctr => self.ctr,
+            Loc::Ca => self.ca as u32, Loc::Cr(i) => self.crbit(i as u32) as u32 }
+    }
+    fn set(&mut self, l: Loc, v: u32) {
+        match l { Loc::G(i) => self.r[i as usize] = v, Loc::Hi => self.hi = v, Loc::Lo => self.lo = v, Loc::Lr => self.lr = v, Loc::Ctr => self.ctr = v,
+            Loc::Ca => self.ca = v & 1 == 1, Loc::Cr(i) => self.set_crbit(i as u32, v & 1 == 1) }
+    }
+}
+
+fn mrd(c: &Cpu, addr: u32, n: u32, big: bool) -> Result<u32, ()> {
+    let mut v = 0u32;
+    for i in 0..n {
+        let a = addr.wrapping_add(i);
+        if a < DATA || a >= DATA + DATA_LEN as u32 { return Err(()); }
+        let b = c.mem[(a - DATA) as usize] as u32;
+        if big { v = (v << 8) | b } else { v |= b << (8 * i) }
+    }
+    Ok(v)
+}
+fn mwr(c: &mut Cpu, addr: u32, n: u32, v: u32, big: bool) -> Result<(), ()> {
+    for i in 0..n {
+        let a = addr.wrapping_add(i);
+        if a < DATA || a >= DATA + DATA_LEN as u32 { return Err(()); }
+        let b = if big { v >> (8 * (n - 1 - i)) } else { v >> (8 * i) };
+        c.mem[(a - DATA) as usize] = b as u8;
+    }
+    Ok(())
+}
+
+// ---------------------------------------------------------------- MIPS32 (release 1 subset), from MIPS32 Vol II
+enum Flow { Seq, Jump(u32), Nullify }
+
+fn gr(c: &Cpu, i: usize) -> u32 { if i == 0 { 0 } else { c.r[i] } }
+fn sr(c: &mut Cpu, i: usize, v: u32) { if i != 0 { c.r[i] = v } }
+
+/// Err(()) = the manual says trap / UNPREDICTABLE / not in the modelled subset: the state is skipped
+fn mips_exec(c: &mut Cpu, w: u32, pc: u32, big: bool) -> Result<Flow, ()> {
+    let op = w >> 26;
+    let (rs, rt, rd) = (((w >> 21) & 31) as usize, ((w >> 16) & 31) as usize, ((w >> 11) & 31) as usize);
+    let sa = (w >> 6) & 31;
+    let funct = w & 63;
+    let imm = w & 0xffff;
+    let simm = imm as u16 as i16 as i32 as u32;
+    let btarget = pc.wrapping_add(4).wrapping_add(simm << 2);
+    let (a, b) = (gr(c, rs), gr(c, rt));
+    let cond = |t: bool| -> Flow { if t { Flow::Jump(btarget) } else { Flow::Seq } };
+    let likely = |t: bool| -> Flow { if t { Flow::Jump(btarget) } else { Flow::Nullify } };
+    match op {
+        0 => match funct {
+            0x00 => { if rs != 0 { return Err(()); } sr(c, rd, b << sa) }
+            0x02 => { if rs != 0 { return Err(()); } sr(c, rd, b >> sa) }
+            0x03 => { if rs != 0 { return Err(()); } sr(c, rd, ((b as i32) >> sa) as u32) }
+            0x04 => { if sa != 0 { return Err(()); } sr(c, rd, b << (a & 31)) }
+            0x06 => { if sa != 0 { return Err(()); } sr(c, rd, b >> (a & 31)) }
+            0x07 => { if sa != 0 { return Err(()); } sr(c, rd, ((b as i32) >> (a & 31)) as u32) }
+            0x08 => { return Ok(Flow::Jump(a)); }
+            0x09 => { if rd == rs { return Err(()); } sr(c, rd, pc.wrapping_add(8)); return Ok(Flow::Jump(a)); }
+            0x0a => { if b == 0 { sr(c, rd, a) } }
+            0x0b => { if b != 0 { sr(c, rd, a) } }
+            0x10 => sr(c, rd, c.hi),
+            0x11 => c.hi = a,
+            0x12 => sr(c, rd, c.lo),
+            0x13 => c.lo = a,
+            0x18 => { let p = (a as i32 as i64).wrapping_mul(b as i32 as i64) as u64; c.lo = p as u32; c.hi = (p >> 32) as u32 }
+            0x19 => { let p = (a as u64) * (b as u64); c.lo = p as u32; c.hi = (p >> 32) as u32 }
+            0x1a => { if b == 0 || (a == 0x8000_0000 && b == 0xffff_ffff) { return Err(()); }
+                c.lo = ((a as i32) / (b as i32)) as u32; c.hi = ((a as i32) % (b as i32)) as u32 }
+            0x1b => { if b == 0 { return Err(()); } c.lo = a / b; c.hi = a % b }
+            0x20 => { match (a as i32).checked_add(b as i32) { Some(v) => sr(c, rd, v as u32), None => return Err(()) } }
+            0x21 => sr(c, rd, a.wrapping_add(b)),
+            0x22 => { match (a as i32).checked_sub(b as i32) { Some(v) => sr(c, rd, v as u32), None => return Err(()) } }
+            0x23 => sr(c, rd, a.wrapping_sub(b)),
+            0x24 => sr(c, rd, a & b),
+            0x25 => sr(c, rd, a | b),
+            0x26 => sr(c, rd, a ^ b),
+            0x27 => sr(c, rd, !(a | b)),
+            0x2a => sr(c, rd, ((a as i32) < (b as i32)) as u32),
+            0x2b => sr(c, rd, (a < b) as u32),
+            _ => return Err(()),
+        },
+        1 => match rt {
+            0x00 => return Ok(cond((a as i32) < 0)),
+            0x01 => return Ok(cond((a as i32) >= 0)),
+            0x02 => return Ok(likely((a as i32) < 0)),
+            0x03 => return Ok(likely((a as i32) >= 0)),
+            0x10 => { if rs == 31 { return Err(()); } c.r[31] = pc.wrapping_add(8); return Ok(cond((a as i32) < 0)); }
+            0x11 => { if rs == 31 { return Err(()); } c.r[31] = pc.wrapping_add(8); return Ok(cond((a as i32) >= 0)); }
+            _ => return Err(()),
+        },
+        2 => return Ok(Flow::Jump((pc.wrapping_add(4) & 0xf000_0000) | ((w & 0x03ff_ffff) << 2))),
+        3 => { c.r[31] = pc.wrapping_add(8); return Ok(Flow::Jump((pc.wrapping_add(4) & 0xf000_0000) | ((w & 0x03ff_ffff) << 2))); }
+        4 => return Ok(cond(a == b)),
+        5 => return Ok(cond(a != b)),
+        6 => { if rt != 0 { return Err(()); } return Ok(cond((a as i32) <= 0)); }
+        7 => { if rt != 0 { return Err(()); } return Ok(cond((a as i32) > 0)); }
+        8 => { match (a as i32).checked_add(simm as i32) { Some(v) => sr(c, rt, v as u32), None => return Err(()) } }
+        9 => sr(c, rt, a.wrapping_add(simm)),
+        0x0a => sr(c, rt, ((a as i32) < (simm as i32)) as u32),
+        0x0b => sr(c, rt, (a < simm) as u32),
+        0x0c => sr(c, rt, a & imm),
+        0x0d => sr(c, rt, a | imm),
+        0x0e => sr(c, rt, a ^ imm),
+        0x0f => { if rs != 0 { return Err(()); } sr(c, rt, imm << 16) }
+        0x14 => return Ok(likely(a == b)),
+        0x15 => return Ok(likely(a != b)),
+        0x16 => { if rt != 0 { return Err(()); } return Ok(likely((a as i32) <= 0)); }
+        0x17 => { if rt != 0 { return Err(()); } return Ok(likely((a as i32) > 0)); }
+        0x1c => match funct {
+            0x00 | 0x01 | 0x04 | 0x05 => {
+                if rd != 0 || sa != 0 { return Err(()); }
+                let acc = ((c.hi as u64) << 32) | c.lo as u64;
+                let p = if funct & 1 == 0 { (a as i32 as i64).wrapping_mul(b as i32 as i64) as u64 } else { (a as u64) * (b as u64) };
+                let r = if funct < 4 { acc.wrapping_add(p) } else { acc.wrapping_sub(p) };
+                c.lo = r as u32; c.hi = (r >> 32) as u32
+            }
+            0x02 => { if sa != 0 { return Err(()); } sr(c, rd, (a as i32).wrapping_mul(b as i32) as u32); c.hilo_undef = true }
+            0x20 => { if sa != 0 { return Err(()); } sr(c, rd, a.leading_zeros()) }
+            0x21 => { if sa != 0 { return Err(()); } sr(c, rd, a.leading_ones()) }
+            _ => return Err(()),
+        },
+        0x20 | 0x21 | 0x23 | 0x24 | 0x25 => {
+            let va = a.wrapping_add(simm);
+            let v = match op {
+                0x20 => mrd(c, va, 1, big)? as u8 as i8 as i32 as u32,
+                0x24 => mrd(c, va, 1, big)?,
+                0x21 => { if va & 1 != 0 { return Err(()); } mrd(c, va, 2, big)? as u16 as i16 as i32 as u32 }
+                0x25 => { if va & 1 != 0 { return Err(()); } mrd(c, va, 2, big)? }
+                _ => { if va & 3 != 0 { return Err(()); } mrd(c, va, 4, big)? }
+            };
+            sr(c, rt, v)
+        }
+        0x28 => mwr(c, a.wrapping_add(simm), 1, b & 0xff, big)?,
+        0x29 => { let va = a.wrapping_add(simm); if va & 1 != 0 { return Err(()); } mwr(c, va, 2, b & 0xffff, big)? }
+        0x2b => { let va = a.wrapping_add(simm); if va & 3 != 0 { return Err(()); } mwr(c, va, 4, b, big)? }
+        0x22 | 0x26 | 0x2a | 0x2e => {
+            // LWL / LWR / SWL / SWR, MIPS32 Vol II: byte <- vAddr[1:0] xor BigEndianCPU^2 ; memword = the aligned word
+            let va = a.wrapping_add(simm);
+            let byte = if big { (va & 3) ^ 3 } else { va & 3 };
+            let mw = mrd(c, va & !3, 4, big)?;
+            match op {
+                0x22 => { // temp <- memword[7+8*byte..0] || GPR[rt][23-8*byte..0]
+                    let keep = 3 - byte; // low bytes of rt that are kept
+                    let v = if keep == 0 { mw } else { (mw << (8 * keep)) | (b & ((1u32 << (8 * keep)) - 1)) };
+                    sr(c, rt, v)
+                }
+                0x26 => { // temp <- GPR[rt][31..32-8*byte] || memword[31..8*byte]
+                    let v = if byte == 0 { mw } else { (b & !(0xffff_ffffu32 >> (8 * byte))) | (mw >> (8 * byte)) };
+                    sr(c, rt, v)
+                }
+                0x2a => { // memword[8*byte+7..0] <- GPR[rt][31..24-8*byte]
+                    let nb = byte + 1;
+                    let mask = if nb == 4 { 0xffff_ffff } else { (1u32 << (8 * nb)) - 1 };
+                    let new = (mw & !mask) | ((b >> (8 * (4 - nb))) & mask);
+                    mwr(c, va & !3, 4, new, big)?
+                }
+                _ => { // memword[31..8*byte] <- GPR[rt][31-8*byte..0]
+                    let new = if byte == 0 { b } else { (mw & ((1u32 << (8 * byte)) - 1)) | (b << (8 * byte)) };
+                    mwr(c, va & !3, 4, new, big)?
+                }
+            }
+        }
+        _ => return Err(()),
+    }
+    Ok(Flow::Seq)
+}
+
+/// run the words placed at CODE until the pc leaves them; returns the next pc
+fn mips_run(c: &mut Cpu, words: &[u32], big: bool) -> Result<u32, ()> {
+    let end = CODE + 4 * words.len() as u32;
+    let mut pc = CODE;
+    let mut n = 0;
+    while pc >= CODE && pc < end {
+        n += 1;
+        if n > 64 { return Err(()); }
+        match mips_exec(c, words[((pc - CODE) / 4) as usize], pc, big)? {
+            Flow::Seq => pc += 4,
+            Flow::Nullify => pc += 8,
+            Flow::Jump(t) => {
+                let dpc = pc + 4;
+                if dpc >= end { return Err(()); }
+                match mips_exec(c, words[((dpc - CODE) / 4) as usize], dpc, big)? { Flow::Seq => {} _ => return Err(()) }
+                pc = t;
+            }
+        }
+    }
+    Ok(pc)
+}
+
+// ---------------------------------------------------------------- PowerPC 32-bit (UISA subset), from the PEM
+fn ppc_mask(mb: u32, me: u32) -> u32 {
+    // bit 0 is the most significant bit
+    let from = |i: u32| -> u32 { 0xffff_ffffu32 >> i };          // ones in bits i..31
+    let upto = |i: u32| -> u32 { 0xffff_ffffu32 << (31 - i) };   // ones in bits 0..i
+    if mb <= me { from(mb) & upto(me) } else { from(mb) | upto(me) }
+}
+fn ppc_rec0(c: &mut Cpu, v: u32) {
+    c.set_crbit(0, (v as i32) < 0);
+    c.set_crbit(1, (v as i32) > 0);
+    c.set_crbit(2, v == 0);
+    c.cr_undef |= 1 << (31 - 3);
+}
+fn ppc_cond(c: &mut Cpu, bo: u32, bi: u32) -> bool {
+    if bo & 4 == 0 { c.ctr = c.ctr.wrapping_sub(1); }
+    let ctr_ok = bo & 4 != 0 || ((c.ctr != 0) ^ (bo & 2 != 0));
+    let cond_ok = bo & 16 != 0 || (c.crbit(bi) == (bo & 8 != 0));
+    ctr_ok && cond_ok
+}
+fn ppc_exec(c: &mut Cpu, w: u32, pc: u32) -> Result<u32, ()> {
+    let op = w >> 26;
+    let (d, a, b) = (((w >> 21) & 31) as usize, ((w >> 16) & 31) as usize, ((w >> 11) & 31) as usize);
+    let xo = (w >> 1) & 0x3ff;
+    let rc = w & 1 == 1;
+    let uimm = w & 0xffff;
+    let simm = uimm as u16 as i16 as i32 as u32;
+    let mut next = pc.wrapping_add(4);
+    let a0 = if a == 0 { 0 } else { c.r[a] };
+    match op {
+        14 => c.r[d] = a0.wrapping_add(simm),
+        15 => c.r[d] = a0.wrapping_add(uimm << 16),
+        10 | 11 => {
+            if (w >> 21) & 3 != 0 { return Err(()); }
+            let f = (w >> 23) & 7;
+            let (lt, gt) = if op == 11 { ((c.r[a] as i32) < (simm as i32), (c.r[a] as i32) > (simm as i32)) } else { (c.r[a] < uimm, c.r[a] > uimm) };
+            c.set_crbit(4 * f, lt); c.set_crbit(4 * f + 1, gt); c.set_crbit(4 * f + 2, !lt && !gt);
+            c.cr_undef |= 1 << (31 - (4 * f + 3));
+        }
+        16 => {
+            let bd = (((w & 0xfffc) as u16 as i16) as i32) as u32;
+            let taken = ppc_cond(c, d as u32, a as u32);
+            if w & 1 == 1 { c.lr = pc.wrapping_add(4); }
+            if taken { next = if w & 2 != 0 { bd } else { pc.wrapping_add(bd) }; }
+        }
+        18 => {
+            let li = w & 0x03ff_fffc;
+            let li = if li & 0x0200_0000 != 0 { li | 0xfc00_0000 } else { li };
+            if w & 1 == 1 { c.lr = pc.wrapping_add(4); }
+            next = if w & 2 != 0 { li } else { pc.wrapping_add(li) };
+        }
+        19 => match xo {
+            16 => {
+                let tgt = c.lr & !3;
+                let taken = ppc_cond(c, d as u32, a as u32);
+                if w & 1 == 1 { c.lr = pc.wrapping_add(4); }
+                if taken { next = tgt; }
+            }
+            528 => {
+                if d & 4 == 0 { return Err(()); }
+                let tgt = c.ctr & !3;
+                let taken = ppc_cond(c, d as u32, a as u32);
+                if w & 1 == 1 { c.lr = pc.wrapping_add(4); }
+                if taken { next = tgt; }
+            }
+            _ => return Err(()),
+        },
+        21 => {
+            let v = c.r[d].rotate_left(b as u32) & ppc_mask((w >> 6) & 31, (w >> 1) & 31);
+            c.r[a] = v;
+            if rc { ppc_rec0(c, v); }
+        }
+        24 => c.r[a] = c.r[d] | uimm,
+        31 => match xo {
+            0 | 32 => {
+                if (w >> 21) & 3 != 0 || rc { return Err(()); }
+                let f = (w >> 23) & 7;
+                let (x, y) = (c.r[a], c.r[b]);
+                let (lt, gt) = if xo == 0 { ((x as i32) < (y as i32), (x as i32) > (y as i32)) } else { (x < y, x > y) };
+                c.set_crbit(4 * f, lt); c.set_crbit(4 * f + 1, gt); c.set_crbit(4 * f + 2, !lt && !gt);
+                c.cr_undef |= 1 << (31 - (4 * f + 3));
+            }
+            40 => { let v = (!c.r[a]).wrapping_add(c.r[b]).wrapping_add(1); c.r[d] = v; if rc { ppc_rec0(c, v); } }
+            202 => {
+                if b != 0 { return Err(()); }
+                let s = c.r[a] as u64 + c.ca as u64;
+                c.r[d] = s as u32; c.ca = s >> 32 != 0;
+                if rc { ppc_rec0(c, s as u32); }
+            }
+            266 => { let v = c.r[a].wrapping_add(c.r[b]); c.r[d] = v; if rc { ppc_rec0(c, v); } }
+            339 | 467 => {
+                if rc { return Err(()); }
+                let spr = ((w >> 16) & 31) | (((w >> 11) & 31) << 5);
+                match (xo, spr) {
+                    (339, 8) => c.r[d] = c.lr,
+                    (339, 9) => c.r[d] = c.ctr,
+                    (467, 8) => c.lr = c.r[d],
+                    (467, 9) => c.ctr = c.r[d],
+                    _ => return Err(()),
+                }
+            }
+            444 => { let v = c.r[d] | c.r[b]; c.r[a] = v; if rc { ppc_rec0(c, v); } }
+            824 => {
+                let s = c.r[d];
+                let v = ((s as i32) >> b) as u32;
+                c.ca = (s as i32) < 0 && b != 0 && (s & ((1u32 << b) - 1)) != 0;
+                c.r[a] = v;
+                if rc { ppc_rec0(c, v); }
+            }
+            _ => return Err(()),
+        },
+        32 | 33 | 34 => {
+            if op == 33 && (a == 0 || a == d) { return Err(()); }
+            let ea = a0.wrapping_add(simm);
+            c.r[d] = if op == 34 { mrd(c, ea, 1, true)? } else { mrd(c, ea, 4, true)? };
+            if op == 33 { c.r[a] = ea; }
+        }
+        36 | 37 => {
+            if op == 37 && a == 0 { return Err(()); }
+            let ea = a0.wrapping_add(simm);
+            let v = c.r[d];
+            mwr(c, ea, 4, v, true)?;
+            if op == 37 { c.r[a] = ea; }
+        }
+        47 => {
+            let mut ea = a0.wrapping_add(simm);
+            for r in d..32 { let v = c.r[r]; mwr(c, ea, 4, v, true)?; ea = ea.wrapping_add(4); }
+        }
+        _ => return Err(()),
+    }
+    Ok(next)
+}
+fn ppc_run(c: &mut Cpu, words: &[u32]) -> Result<u32, ()> {
+    let end = CODE + 4 * words.len() as u32;
+    let mut pc = CODE;
+    let mut n = 0;
+    while pc >= CODE && pc < end {
+        n += 1;
+        if n > 64 { return Err(()); }
+        pc = ppc_exec(c, words[((pc - CODE) / 4) as usize], pc)?;
+    }
+    Ok(pc)
+}
+
+// ------------------------------------------------------------------ test cases
+type Tweak = Vec<(Loc, u32)>;
+struct Case {
+    op: String,
+    asm: String,
+    words: Vec<u32>,
+    show: Vec<Loc>,
+    tweaks: Vec<Tweak>,
+    /// run every tweak on both base states (otherwise only the first tweak is also run on the second base state)
+    both: bool,
+    mem: bool,
+}
+struct B { out: Vec<Case> }
+impl B {
+    fn add(&mut self, op: &str, asm: String, words: Vec<u32>, gprs: &[u8], extra: &[Loc], tweaks: Vec<Tweak>, both: bool, mem: bool) {
+        let mut show: Vec<Loc> = Vec::new();
+        for &g in gprs { if !show.contains(&Loc::G(g)) { show.push(Loc::G(g)); } }
+        for &l in extra { if !show.contains(&l) { show.push(l); } }
+        for t in &tweaks { for &(l, _) in t { if !show.contains(&l) { show.push(l); } } }
+        let tweaks = if tweaks.is_empty() { vec![Vec::new()] } else { tweaks };
+        self.out.push(Case { op: op.to_string(), asm, words, show, tweaks, both, mem });
+    }
+}
+fn singles(l: Loc, vals: &[u32]) -> Vec<Tweak> { vals.iter().map(|&v| vec![(l, v)]).collect() }
+fn pairs(la: Loc, va: &[u32], lb: Loc, vb: &[u32]) -> Vec<Tweak> {
+    if la == lb { return singles(la, va); }
+    let mut o = Vec::new();
+    for &x in va { for &y in vb { o.push(vec![(la, x), (lb, y)]); } }
+    o
+}
+fn cross(t1: &[Tweak], t2: &[Tweak]) -> Vec<Tweak> {
+    let mut o = Vec::new();
+    for x in t1 { for y in t2 { let mut t = x.clone(); t.extend(y.iter().cloned()); o.push(t); } }
+    o
+}
+fn with(t: &[Tweak], extra: &[(Loc, u32)]) -> Vec<Tweak> {
+    let base: Vec<Tweak> = if t.is_empty() { vec![Vec::new()] } else { t.to_vec() };
+    base.into_iter().map(|mut x| { x.extend(extra.iter().cloned()); x }).collect()
+}
+
+const V7: [u32; 7] = [0, 1, 0x7fff_ffff, 0x8000_0000, 0xffff_ffff, 0x1234_5678, 0xfedc_ba98];
+const V5: [u32; 5] = [0, 1, 0x7fff_ffff, 0x8000_0000, 0xffff_ffff];
+const IMMS: [u32; 7] = [0, 1, 0x7fff, 0x8000, 0xffff, 0x1234, 0x8001];
+
+// ---- MIPS assembler
+const ZERO: u8 = 0; const T0: u8 = 8; const T1: u8 = 9; const T2: u8 = 10; const T3: u8 = 11; const T4: u8 = 12; const T5: u8 = 13;
+const S0: u8 = 16; const S1: u8 = 17; const A0: u8 = 4; const RA: u8 = 31;
+fn mn(r: u8) -> &'static str { MIPS_NAMES[r as usize] }
+fn m_r(funct: u32, rd: u8, rs: u8, rt: u8, sa: u32) -> u32 { ((rs as u32) << 21) | ((rt as u32) << 16) | ((rd as u32) << 11) | (sa << 6) | funct }
+fn m_r2(funct: u32, rd: u8, rs: u8, rt: u8) -> u32 { (0x1c << 26) | m_r(funct, rd, rs, rt, 0) }
+fn m_i(op: u32, rt: u8, rs: u8, imm: u32) -> u32 { (op << 26) | ((rs as u32) << 21) | ((rt as u32) << 16) | (imm & 0xffff) }
+fn simm_txt(imm: u32) -> String { let v = imm as u16 as i16; format!("{}", v) }
+/// `addu $t3,$zero,$t4`: reads $zero after the instruction under test wrote to it
+fn m_follow() -> (u32, &'static str) { (m_r(0x21, T3, ZERO, T4, 0), " ; addu $t3,$zero,$t4") }
+
+fn mips_cases() -> Vec<Case> {
+    let mut b = B { out: Vec::new() };
+    let (fw, ft) = m_follow();
+    // ---- three-register ALU
+    let r3: [(&str, u32, bool); 13] = [("addu", 0x21, false), ("subu", 0x23, false), ("and", 0x24, false), ("or", 0x25, false), ("xor", 0x26, false),
+        ("nor", 0x27, false), ("slt", 0x2a, false), ("sltu", 0x2b, false), ("movn", 0x0b, false), ("movz", 0x0a, false), ("add", 0x20, false),
+        ("sub", 0x22, false), ("mul", 0x02, true)];
+    let combos3: [(u8, u8, u8); 9] = [(T2, T0, T1), (T0, T0, T1), (T1, T0, T1), (T0, T0, T0), (T2, ZERO, T1), (T2, T0, ZERO), (ZERO, T0, T1), (S0, RA, A0), (T2, T0, T0)];
+    for &(name, funct, sp2) in &r3 {
+        for &(rd, rs, rt) in &combos3 {
+            let w = if sp2 { m_r2(funct, rd, rs, rt) } else { m_r(funct, rd, rs, rt, 0) };
+            let mut words = vec![w];
+            let mut asm = format!("{} {},{},{}", name, mn(rd), mn(rs), mn(rt));
+            if rd == ZERO { words.push(fw); asm.push_str(ft); }
+            let tw = if rs == ZERO { singles(Loc::G(rt), &V7) } else if rt == ZERO { singles(Loc::G(rs), &V7) } else { pairs(Loc::G(rs), &V7, Loc::G(rt), &V7) };
+            b.add(name, asm, words, &[rd, rs, rt], &[], tw, false, false);
+        }
+    }
+    // ---- the register $zero: a write is discarded, a later read gives 0
+    b.add("addiu", "addiu $zero,$zero,5 ; addu $t0,$zero,$zero".to_string(), vec![m_i(9, ZERO, ZERO, 5), m_r(0x21, T0, ZERO, ZERO, 0)], &[T0], &[], vec![], true, false);
+    b.add("ori", "ori $zero,$t1,0xffff ; or $t0,$zero,$t1".to_string(), vec![m_i(0xd, ZERO, T1, 0xffff), m_r(0x25, T0, ZERO, T1, 0)], &[T0, T1], &[], singles(Loc::G(T1), &V5), false, false);
+    b.add("lui", "lui $zero,0x1234 ; sltu $t0,$zero,$t1".to_string(), vec![m_i(0xf, ZERO, 0, 0x1234), m_r(0x2b, T0, ZERO, T1, 0)], &[T0, T1], &[], singles(Loc::G(T1), &V5), false, false);
+    // ---- immediates
+    let imm_ops: [(&str, u32); 7] = [("addiu", 9), ("andi", 0xc), ("ori", 0xd), ("xori", 0xe), ("slti", 0xa), ("sltiu", 0xb), ("addi", 8)];
+    for &(name, op) in &imm_ops {
+        for &(rt, rs) in &[(T1, T0), (T0, T0), (T1, ZERO), (ZERO, T0), (RA, S0)] {
+            for &imm in &IMMS {
+                let mut words = vec![m_i(op, rt, rs, imm)];
+                let it = if op == 0xc || op == 0xd || op == 0xe { format!("0x{:x}", imm) } else { simm_txt(imm) };
+                let mut asm = format!("{} {},{},{}", name, mn(rt), mn(rs), it);
+                if rt == ZERO { words.push(fw); asm.push_str(ft); }
+                let tw = if rs == ZERO { vec![] } else { singles(Loc::G(rs), &V7) };
+                b.add(name, asm, words, &[rt, rs], &[], tw, false, false);
+            }
+        }
+    }
+    for &rt in &[T0, ZERO, RA] {
+        for &imm in &IMMS {
+            let mut words = vec![m_i(0xf, rt, 0, imm)];
+            let mut asm = format!("lui {},0x{:x}", mn(rt), imm);
+            if rt == ZERO { words.push(fw); asm.push_str(ft); }
+            b.add("lui", asm, words, &[rt], &[], vec![], true, false);
+        }
+    }
+    // ---- shifts by immediate
+    for &(name, funct) in &[("sll", 0u32), ("srl", 2), ("sra", 3)] {
+        for &(rd, rt) in &[(T2, T1), (T1, T1), (T2, ZERO), (RA, S0)] {
+            for &sa in &[0u32, 1, 4, 15, 16, 31] {
+                let tw = if rt == ZERO { vec![] } else { singles(Loc::G(rt), &V7) };
+                b.add(name, format!("{} {},{},{}", name, mn(rd), mn(rt), sa), vec![m_r(funct, rd, 0, rt, sa)], &[rd, rt], &[], tw, false, false);
+            }
+        }
+    }
+    // ---- shifts by register: the manual uses GPR[rs][4:0]
+    let shv: [u32; 9] = [0, 1, 4, 31, 32, 33, 63, 0x8000_0001, 0xffff_ffff];
+    let shx: [u32; 5] = [1, 0x8000_0000, 0xffff_ffff, 0x1234_5678, 0x7fff_ffff];
+    for &(name, funct) in &[("sllv", 4u32), ("srlv", 6), ("srav", 7)] {
+        for &(rd, rt, rs) in &[(T2, T1, T0), (T1, T1, T0), (T0, T1, T0), (T2, T1, T1), (T2, T1, ZERO), (T2, ZERO, T0)] {
+            let tw = if rs == ZERO { singles(Loc::G(rt), &shx) } else if rt == ZERO { singles(Loc::G(rs), &shv) } else if rs == rt { singles(Loc::G(rs), &shv) } else { pairs(Loc::G(rt), &shx, Loc::G(rs), &shv) };
+            b.add(name, format!("{} {},{},{}", name, mn(rd), mn(rt), mn(rs)), vec![m_r(funct, rd, rs, rt, 0)], &[rd, rt, rs], &[], tw, false, false);
+        }
+    }
+    // ---- multiply / divide / accumulate
+    let v9: [u32; 9] = [0, 1, 0x7fff_ffff, 0x8000_0000, 0xffff_ffff, 0x1234_5678, 0xfedc_ba98, 3, 0xffff_fff9];
+    let hilo = [Loc::Hi, Loc::Lo];
+    for &(name, funct) in &[("mult", 0x18u32), ("multu", 0x19), ("div", 0x1a), ("divu", 0x1b)] {
+        for &(rs, rt) in &[(T0, T1), (T0, T0), (ZERO, T1), (T0, ZERO), (RA, S0)] {
+            let tw = if rs == ZERO { singles(Loc::G(rt), &v9) } else if rt == ZERO { singles(Loc::G(rs), &v9) } else { pairs(Loc::G(rs), &v9, Loc::G(rt), &v9) };
+            b.add(name, format!("{} {},{}", name, mn(rs), mn(rt)), vec![m_r(funct, 0, rs, rt, 0)], &[rs, rt], &hilo, tw, false, false);
+        }
+    }
+    let accs: Vec<Tweak> = vec![vec![(Loc::Hi, 0), (Loc::Lo, 0)], vec![(Loc::Hi, 0xffff_ffff), (Loc::Lo, 0xffff_ffff)], vec![(Loc::Hi, 0x7fff_ffff), (Loc::Lo, 0xffff_ffff)],
+        vec![(Loc::Hi, 1), (Loc::Lo, 0x8000_0000)], vec![(Loc::Hi, 0), (Loc::Lo, 0xffff_ffff)]];
+    for &(name, funct) in &[("madd", 0u32), ("maddu", 1), ("msub", 4), ("msubu", 5)] {
+        for &(rs, rt) in &[(T0, T1), (T0, T0), (T0, ZERO)] {
+            let tw = if rt == ZERO { singles(Loc::G(rs), &V5) } else { pairs(Loc::G(rs), &V7, Loc::G(rt), &V7) };
+            b.add(name, format!("{} {},{}", name, mn(rs), mn(rt)), vec![m_r2(funct, 0, rs, rt)], &[rs, rt], &hilo, cross(&tw, &accs), false, false);
+        }
+    }
+    let hl: Vec<Tweak> = pairs(Loc::Hi, &[0, 0x8000_0001, 0xffff_ffff], Loc::Lo, &[1, 0x7fff_fffe]);
+    for &rd in &[T0, ZERO, RA] {
+        for &(name, funct) in &[("mfhi", 0x10u32), ("mflo", 0x12)] {
+            let mut words = vec![m_r(funct, rd, 0, 0, 0)];
+            let mut asm = format!("{} {}", name, mn(rd));
+            if rd == ZERO { words.push(fw); asm.push_str(ft); }
+            b.add(name, asm, words, &[rd], &hilo, hl.clone(), false, false);
+        }
+        for &(name, funct) in &[("mthi", 0x11u32), ("mtlo", 0x13)] {
+            let tw = if rd == ZERO { hl.clone() } else { singles(Loc::G(rd), &V7) };
+            b.add(name, format!("{} {}", name, mn(rd)), vec![m_r(funct, 0, rd, 0, 0)], &[rd], &hilo, tw, false, false);
+        }
+    }
+    let clv: [u32; 10] = [0, 1, 0x7fff_ffff, 0x8000_0000, 0xffff_ffff, 0x0001_0000, 0xfffe_0000, 0xc000_0000, 0x3fff_ffff, 0xffff_fffe];
+    for &(name, funct) in &[("clz", 0x20u32), ("clo", 0x21)] {
+        for &(rd, rs) in &[(T1, T0), (T0, T0), (T1, ZERO), (RA, S0)] {
+            let tw = if rs == ZERO { vec![] } else { singles(Loc::G(rs), &clv) };
+            // pre-R6 encoding: the rt field repeats rd
+            b.add(name, format!("{} {},{}", name, mn(rd), mn(rs)), vec![m_r2(funct, rd, rs, rd)], &[rd, rs], &[], tw, false, false);
+        }
+    }
+    // ---- capstone aliases
+    for &(rd, rt) in &[(T1, T0), (T0, T0), (RA, S0)] {
+        b.add("negu", format!("negu {},{} (subu {},$zero,{})", mn(rd), mn(rt), mn(rd), mn(rt)), vec![m_r(0x23, rd, ZERO, rt, 0)], &[rd, rt], &[], singles(Loc::G(rt), &V7), false, false);
+    }
+    for &(rd, rs) in &[(T1, T0), (T1, ZERO), (RA, T0), (T0, RA)] {
+        let tw = if rs == ZERO { vec![] } else { singles(Loc::G(rs), &V7) };
+        b.add("move", format!("move {},{} (addu {},{},$zero)", mn(rd), mn(rs), mn(rd), mn(rs)), vec![m_r(0x21, rd, rs, ZERO, 0)], &[rd, rs], &[], tw.clone(), false, false);
+        b.add("move", format!("move {},{} (or {},{},$zero)", mn(rd), mn(rs), mn(rd), mn(rs)), vec![m_r(0x25, rd, rs, ZERO, 0)], &[rd, rs], &[], tw, false, false);
+    }
+    // ---- aligned loads and stores
+    let stv: [u32; 3] = [0x1122_3344, 0x80ff_fe7f, 0xffff_ffff];
+    for &(name, op, size, store) in &[("lb", 0x20u32, 1u32, false), ("lbu", 0x24, 1, false), ("lh", 0x21, 2, false), ("lhu", 0x25, 2, false), ("lw", 0x23, 4, false),
+        ("sb", 0x28, 1, true), ("sh", 0x29, 2, true), ("sw", 0x2b, 4, true)] {
+        let mut disps: Vec<i32> = vec![0, 4, -4, 8, -16, 12];
+        if size <= 2 { disps.extend([2, -2, 6]); }
+        if size == 1 { disps.extend([1, 3, -1, -13]); }
+        for &rt in &[T1, T0, ZERO] {
+            for &d in &disps {
+                let mut words = vec![m_i(op, rt, T0, d as u32)];
+                let mut asm = format!("{} {},{}({})", name, mn(rt), d, mn(T0));
+                if rt == ZERO && !store { words.push(fw); asm.push_str(ft); }
+                let base = vec![(Loc::G(T0), MID)];
+                let tw = if store && rt == T1 { with(&singles(Loc::G(T1), &stv), &base) } else { vec![base] };
+                b.add(name, asm, words, &[rt, T0], &[], tw, true, true);
+            }
+            // displacement with bit 15 set and a base far above the window ; base $zero
+            let far = vec![(Loc::G(T0), MID.wrapping_add(0x8000))];
+            let tw = if store && rt == T1 { with(&singles(Loc::G(T1), &stv), &far) } else { vec![far] };
+            b.add(name, format!("{} {},-32768({})", name, mn(rt), mn(T0)), vec![m_i(op, rt, T0, 0x8000)], &[rt, T0], &[], tw, true, true);
+            if rt != T0 {
+                let tw = if store && rt == T1 { singles(Loc::G(T1), &stv) } else { vec![] };
+                b.add(name, format!("{} {},0x4004($zero)", name, mn(rt)), vec![m_i(op, rt, ZERO, 0x4004)], &[rt], &[], tw, true, true);
+            }
+        }
+    }
+    // ---- unaligned loads and stores: every byte offset
+    let uv: [u32; 2] = [0xaabb_ccdd, 0x1122_3344];
+    for &(name, op) in &[("lwl", 0x22u32), ("lwr", 0x26), ("swl", 0x2a), ("swr", 0x2e)] {
+        for d in -4i32..8 {
+            b.add(name, format!("{} $t1,{}($t0)", name, d), vec![m_i(op, T1, T0, d as u32)], &[T1, T0], &[], with(&singles(Loc::G(T1), &uv), &[(Loc::G(T0), MID)]), false, true);
+        }
+        for k in 0u32..4 {
+            // the offset comes from the base register ; rt == base
+            b.add(name, format!("{} $t1,0($t0)", name), vec![m_i(op, T1, T0, 0)], &[T1, T0], &[], with(&singles(Loc::G(T1), &uv), &[(Loc::G(T0), MID + 4 + k)]), false, true);
+            b.add(name, format!("{} $t0,-3($t0)", name), vec![m_i(op, T0, T0, (-3i32) as u32)], &[T0], &[], vec![vec![(Loc::G(T0), MID + 8 + k)]], false, true);
+        }
+    }
+    for &(first, second) in &[(3u32, 0u32), (0, 3)] {
+        for k in 0u32..4 {
+            let base = vec![(Loc::G(T0), MID + k)];
+            b.add("lwl_lwr", format!("lwl $t1,{}($t0) ; lwr $t1,{}($t0)", first, second), vec![m_i(0x22, T1, T0, first), m_i(0x26, T1, T0, second)], &[T1, T0], &[], with(&singles(Loc::G(T1), &uv), &base), false, true);
+            b.add("swl_swr", format!("swl $t1,{}($t0) ; swr $t1,{}($t0)", first, second), vec![m_i(0x2a, T1, T0, first), m_i(0x2e, T1, T0, second)], &[T1, T0], &[], with(&singles(Loc::G(T1), &uv), &base), false, true);
+        }
+    }
+    mips_branches(&mut b);
+    b.out
+}
+
+/// a delay-slot instruction: word, text, registers it names
+type Slot = (u32, String, Vec<u8>);
+fn slot_nop() -> Slot { (0, "nop".to_string(), vec![]) }
+fn slot_unrelated() -> Slot { (m_i(9, S1, ZERO, 0x77), "addiu $s1,$zero,119".to_string(), vec![S1]) }
+fn slot_set(r: u8, x: u32) -> Slot { (m_i(9, r, ZERO, x), format!("addiu {},$zero,{}", mn(r), simm_txt(x)), vec![r]) }
+fn slot_read(r: u8) -> Slot { (m_r(0x21, T3, r, ZERO, 0), format!("addu $t3,{},$zero", mn(r)), vec![T3, r]) }
+
+fn mips_branches(b: &mut B) {
+    let tgt = CODE + 24;
+    let off = ((tgt - (CODE + 4)) / 4) & 0xffff;
+    let emit = |b: &mut B, op: &str, text: String, word: u32, regs: &[u8], slots: Vec<Slot>, tw: Vec<Tweak>| {
+        for (sw, st, sregs) in slots {
+            let mut g: Vec<u8> = regs.to_vec();
+            g.extend(sregs);
+            b.add(op, format!("{} ; {}", text, st), vec![word, sw], &g, &[], tw.clone(), true, false);
+        }
+    };
+    let t1v: [u32; 5] = [0, 1, 0x8000_0000, 0xffff_ffff, 0x7fff_ffff];
+    let v6: [u32; 6] = [0, 1, 0x7fff_ffff, 0x8000_0000, 0xffff_ffff, 0x1234_5678];
+    // ---- two-register compares (and the aliases b, beqz, bnez)
+    for &(name, op, lik) in &[("beq", 4u32, false), ("bne", 5, false), ("beql", 0x14, true), ("bnel", 0x15, true)] {
+        for &(rs, rt) in &[(T0, T1), (T0, T0), (T0, ZERO), (ZERO, T0), (ZERO, ZERO)] {
+            let key = match (name, rs, rt) { ("beq", ZERO, ZERO) => "b", ("beq", _, ZERO) => "beqz", ("bne", _, ZERO) if rs != ZERO => "bnez", _ => name };
+            if rs == ZERO && rt == ZERO && name != "beq" { continue; }
+            let mut slots = vec![slot_nop(), slot_unrelated()];
+            if rs != ZERO { slots.extend([slot_set(rs, 0), slot_set(rs, 0xffff), slot_set(rs, 1)]); }
+            if rt != ZERO && rt != rs { slots.extend([slot_set(rt, 0), slot_set(rt, 1)]); }
+            let tw = match (rs, rt) {
+                (ZERO, ZERO) => vec![],
+                (_, ZERO) => singles(Loc::G(rs), &v6),
+                (ZERO, _) => singles(Loc::G(rt), &v6),
+                _ => pairs(Loc::G(rs), &V5, Loc::G(rt), &t1v),
+            };
+            let _ = lik;
+            emit(b, key, format!("{} {},{},0x{:x}", name, mn(rs), mn(rt), tgt), m_i(op, rt, rs, off), &[rs, rt], slots, tw);
+        }
+    }
+    // ---- compares with zero, with and without link, likely forms
+    for &(name, op, rtf, link) in &[("blez", 6u32, 0u8, false), ("bgtz", 7, 0, false), ("bltz", 1, 0, false), ("bgez", 1, 1, false), ("blezl", 0x16, 0, false), ("bgtzl", 0x17, 0, false),
+        ("bltzl", 1, 2, false), ("bgezl", 1, 3, false), ("bltzal", 1, 0x10, true), ("bgezal", 1, 0x11, true)] {
+        for &rs in &[T0, ZERO] {
+            let key = if name == "bgezal" && rs == ZERO { "bal" } else { name };
+            let mut slots = vec![slot_nop(), slot_unrelated()];
+            if rs != ZERO { slots.extend([slot_set(rs, 0), slot_set(rs, 0xffff), slot_set(rs, 1)]); }
+            if link { slots.extend([slot_read(RA), slot_set(RA, 0x55)]); }
+            let tw = if rs == ZERO { vec![] } else { singles(Loc::G(rs), &v6) };
+            emit(b, key, format!("{} {},0x{:x}", name, mn(rs), tgt), m_i(op, rtf, rs, off), &[rs, RA], slots, tw);
+        }
+    }
+    // ---- j / jal
+    emit(b, "j", format!("j 0x{:x}", tgt), (2 << 26) | (tgt >> 2), &[], vec![slot_nop(), slot_unrelated()], vec![]);
+    emit(b, "jal", format!("jal 0x{:x}", tgt), (3 << 26) | (tgt >> 2), &[RA], vec![slot_nop(), slot_unrelated(), slot_read(RA), slot_set(RA, 0x55)], vec![]);
+    // ---- jr / jalr: the target is the value of rs BEFORE the delay slot
+    let targets: [u32; 2] = [FAR + 8, CODE + 24];
+    for &rs in &[T0, RA] {
+        emit(b, "jr", format!("jr {}", mn(rs)), m_r(8, 0, rs, 0, 0), &[rs], vec![slot_nop(), slot_unrelated(), slot_set(rs, FAR + 16), slot_read(rs)], singles(Loc::G(rs), &targets));
+    }
+    for &(rd, rs) in &[(RA, T0), (T5, T0), (T5, RA)] {
+        let slots = vec![slot_nop(), slot_unrelated(), slot_set(rs, FAR + 16), slot_read(rd), slot_set(rd, 0x55)];
+        // rd initially holds the address of another landing pad: a lifter that confuses rd and rs lands there
+        let tw = if rd == RA { singles(Loc::G(rs), &targets) } else { with(&singles(Loc::G(rs), &targets), &[(Loc::G(rd), FAR + 24)]) };
+        emit(b, if rd == RA { "jalr" } else { "jalr_rd" }, format!("jalr {},{}", mn(rd), mn(rs)), m_r(9, rd, rs, 0, 0), &[rd, rs, RA], slots, tw);
+    }
+}
+
+// ---- PPC assembler
+fn p_d(op: u32, d: u8, a: u8, imm: u32) -> u32 { (op << 26) | ((d as u32) << 21) | ((a as u32) << 16) | (imm & 0xffff) }
+fn p_x(xo: u32, d: u8, a: u8, bb: u8, rc: bool) -> u32 { (31 << 26) | ((d as u32) << 21) | ((a as u32) << 16) | ((bb as u32) << 11) | (xo << 1) | rc as u32 }
+fn p_rlwinm(a: u8, s: u8, sh: u32, mb: u32, me: u32, rc: bool) -> u32 { (21 << 26) | ((s as u32) << 21) | ((a as u32) << 16) | (sh << 11) | (mb << 6) | (me << 1) | rc as u32 }
+fn p_spr(xo: u32, r: u8, spr: u32) -> u32 { (31 << 26) | ((r as u32) << 21) | ((spr & 31) << 16) | ((spr >> 5) << 11) | (xo << 1) }
+fn p_bc(bo: u32, bi: u32, rel: i32, lk: bool) -> u32 { (16 << 26) | (bo << 21) | (bi << 16) | ((rel as u32) & 0xfffc) | lk as u32 }
+fn p_bclr(bo: u32, bi: u32, lk: bool) -> u32 { (19 << 26) | (bo << 21) | (bi << 16) | (16 << 1) | lk as u32 }
+fn p_bcctr(bo: u32, bi: u32, lk: bool) -> u32 { (19 << 26) | (bo << 21) | (bi << 16) | (528 << 1) | lk as u32 }
+fn p_b(rel: i32, lk: bool) -> u32 { (18 << 26) | ((rel as u32) & 0x03ff_fffc) | lk as u32 }
+const PNOP: u32 = 0x6000_0000;
+fn opt(rc: bool, s: &[Loc]) -> &[Loc] { if rc { s } else { &[] } }
+
+fn ppc_cases() -> Vec<Case> {
+    let mut b = B { out: Vec::new() };
+    let cr0 = [Loc::Cr(0), Loc::Cr(1), Loc::Cr(2), Loc::Cr(3)];
+    let dot = |rc: bool| if rc { "." } else { "" };
+    // ---- add / subf / add. / subf.
+    for &(name, xo) in &[("add", 266u32), ("subf", 40)] {
+        for &rc in &[false, true] {
+            for &(d, a, bb) in &[(5u8, 3u8, 4u8), (3, 3, 4), (4, 3, 4), (3, 3, 3), (5, 0, 4), (31, 30, 29)] {
+                let key = format!("{}{}", name, dot(rc));
+                b.add(&key, format!("{} r{},r{},r{}", key, d, a, bb), vec![p_x(xo, d, a, bb, rc)], &[d, a, bb], opt(rc, &cr0), pairs(Loc::G(a), &V7, Loc::G(bb), &V7), rc, false);
+            }
+        }
+    }
+    // ---- addi / addis (li / lis when rA = 0)
+    for &(name, op, zname) in &[("addi", 14u32, "li"), ("addis", 15, "lis")] {
+        for &(d, a) in &[(4u8, 3u8), (3, 3), (4, 0), (0, 0), (31, 30)] {
+            for &imm in &IMMS {
+                let (key, asm) = if a == 0 { (zname, format!("{} r{},{}", zname, d, simm_txt(imm))) } else { (name, format!("{} r{},r{},{}", name, d, a, simm_txt(imm))) };
+                // r0 holds a non-zero value: rA = 0 means the literal 0
+                let tw = if a == 0 { singles(Loc::G(0), &[0xdead_beef, 1]) } else { singles(Loc::G(a), &V7) };
+                b.add(key, asm, vec![p_d(op, d, a, imm)], &[d, a], &[], tw, false, false);
+            }
+        }
+    }
+    // ---- addze
+    for &rc in &[false, true] {
+        for &(d, a) in &[(4u8, 3u8), (3, 3), (4, 0)] {
+            let key = format!("addze{}", dot(rc));
+            let tw = pairs(Loc::G(a), &[0, 1, 0x7fff_ffff, 0x8000_0000, 0xffff_ffff, 0xffff_fffe], Loc::Ca, &[0, 1]);
+            b.add(&key, format!("{} r{},r{}", key, d, a), vec![p_x(202, d, a, 0, rc)], &[d, a], opt(rc, &cr0), tw, rc, false);
+        }
+    }
+    // ---- mr / mr. (or rA,rS,rS) and or with two different sources
+    for &rc in &[false, true] {
+        for &(a, s) in &[(4u8, 3u8), (3, 3), (0, 31), (31, 0)] {
+            let key = format!("mr{}", dot(rc));
+            b.add(&key, format!("{} r{},r{}", key, a, s), vec![p_x(444, s, a, s, rc)], &[a, s], opt(rc, &cr0), singles(Loc::G(s), &V7), rc, false);
+        }
+        let key = format!("or{}", dot(rc));
+        b.add(&key, format!("{} r5,r3,r4", key), vec![p_x(444, 3, 5, 4, rc)], &[5, 3, 4], opt(rc, &cr0), pairs(Loc::G(3), &V5, Loc::G(4), &V5), rc, false);
+    }
+    // ---- compares, every CR field
+    let cmpv: [u32; 10] = [0, 1, 0x7fff_ffff, 0x8000_0000, 0xffff_ffff, 5, 4, 6, 0xffff_8000, 0x7fff];
+    for f in 0u8..8 {
+        let crf = [Loc::Cr(4 * f), Loc::Cr(4 * f + 1), Loc::Cr(4 * f + 2), Loc::Cr(4 * f + 3)];
+        for &a in &[3u8, 0] {
+            for &imm in &[0u32, 1, 0xffff, 0x7fff, 0x8000, 5] {
+                b.add("cmpwi", format!("cmpwi cr{},r{},{}", f, a, simm_txt(imm)), vec![(11 << 26) | ((f as u32) << 23) | ((a as u32) << 16) | imm], &[a], &crf, singles(Loc::G(a), &cmpv), true, false);
+                b.add("cmplwi", format!("cmplwi cr{},r{},{}", f, a, imm), vec![(10 << 26) | ((f as u32) << 23) | ((a as u32) << 16) | imm], &[a], &crf, singles(Loc::G(a), &cmpv), true, false);
+            }
+        }
+        for &(a, bb) in &[(3u8, 4u8), (3, 3)] {
+            b.add("cmpw", format!("cmpw cr{},r{},r{}", f, a, bb), vec![(31 << 26) | ((f as u32) << 23) | ((a as u32) << 16) | ((bb as u32) << 11)], &[a, bb], &crf, pairs(Loc::G(a), &V7, Loc::G(bb), &V7), true, false);
+            b.add("cmplw", format!("cmplw cr{},r{},r{}", f, a, bb), vec![(31 << 26) | ((f as u32) << 23) | ((a as u32) << 16) | ((bb as u32) << 11) | (32 << 1)], &[a, bb], &crf, pairs(Loc::G(a), &V7, Loc::G(bb), &V7), true, false);
+        }
+    }
+    // ---- rlwinm and its aliases
+    let rlv: [u32; 5] = [0x9000_3000, 0xffff_ffff, 0x1234_5678, 0x8000_0001, 0xb004_3000];
+    let mbme: [(u32, u32); 19] = [(0, 31), (0, 0), (31, 31), (0, 29), (2, 31), (8, 15), (16, 23), (24, 31), (5, 5), (31, 0), (30, 1), (16, 15), (1, 0), (20, 10), (29, 2), (0, 30), (1, 31), (4, 27), (27, 4)];
+    for &rc in &[false, true] {
+        for &sh in &[0u32, 1, 2, 8, 16, 31] {
+            for &(mb, me) in &mbme {
+                for &(a, s) in &[(4u8, 3u8), (3, 3)] {
+                    if rc && (a == s || sh == 1 || sh == 31) { continue; }
+                    let key = format!("rlwinm{}", dot(rc));
+                    b.add(&key, format!("{} r{},r{},{},{},{}", key, a, s, sh, mb, me), vec![p_rlwinm(a, s, sh, mb, me, rc)], &[a, s], opt(rc, &cr0), singles(Loc::G(s), &rlv), rc, false);
+                }
+            }
+        }
+    }
+    for &n in &[1u32, 2, 4, 16, 31] {
+        for &(a, s) in &[(4u8, 3u8), (3, 3)] {
+            b.add("slwi", format!("slwi r{},r{},{} (rlwinm {},{},{},0,{})", a, s, n, a, s, n, 31 - n), vec![p_rlwinm(a, s, n, 0, 31 - n, false)], &[a, s], &[], singles(Loc::G(s), &rlv), false, false);
+            b.add("srwi", format!("srwi r{},r{},{} (rlwinm {},{},{},{},31)", a, s, n, a, s, 32 - n, n), vec![p_rlwinm(a, s, 32 - n, n, 31, false)], &[a, s], &[], singles(Loc::G(s), &rlv), false, false);
+        }
+    }
+    // ---- srawi / srawi.
+    let srv: [u32; 9] = [0, 1, 0x7fff_ffff, 0x8000_0000, 0xffff_ffff, 0x8000_0001, 0xffff_fff0, 0x1234_5678, 0xffff_0000];
+    for &rc in &[false, true] {
+        for &sh in &[0u32, 1, 4, 16, 31] {
+            for &(a, s) in &[(4u8, 3u8), (3, 3)] {
+                let key = format!("srawi{}", dot(rc));
+                b.add(&key, format!("{} r{},r{},{}", key, a, s, sh), vec![p_x(824, s, a, sh as u8, rc)], &[a, s], if rc { &[Loc::Ca, Loc::Cr(0), Loc::Cr(1), Loc::Cr(2)][..] } else { &[Loc::Ca][..] },
+                    pairs(Loc::G(s), &srv, Loc::Ca, &[0, 1]), rc, false);
+            }
+        }
+    }
+    // ---- loads / stores
+    let stv: [u32; 3] = [0x1122_3344, 0x80ff_fe7f, 0xffff_ffff];
+    let base = vec![(Loc::G(3), MID)];
+    for &(name, op) in &[("lbz", 34u32), ("lwz", 32)] {
+        let mut disps: Vec<i32> = vec![0, 4, -4, 8, -16, 12];
+        if op == 34 { disps.extend([1, 3, -1, -13]); }
+        for &d in &[4u8, 3, 0] {
+            for &disp in &disps {
+                b.add(name, format!("{} r{},{}(r3)", name, d, disp), vec![p_d(op, d, 3, disp as u32)], &[d, 3], &[], vec![base.clone()], true, true);
+            }
+            b.add(name, format!("{} r{},-32768(r3)", name, d), vec![p_d(op, d, 3, 0x8000)], &[d, 3], &[], vec![vec![(Loc::G(3), MID + 0x8000)]], true, true);
+            // rA = 0: the base is the literal 0, not r0
+            b.add(name, format!("{} r{},0x4004(0)", name, d), vec![p_d(op, d, 0, 0x4004)], &[d, 0], &[], vec![vec![(Loc::G(0), 0x10)], vec![(Loc::G(0), 0xdead_0000)]], true, true);
+        }
+    }
+    for &disp in &[0i32, 4, -4, 8, -16] {
+        b.add("lwzu", format!("lwzu r4,{}(r3)", disp), vec![p_d(33, 4, 3, disp as u32)], &[4, 3], &[], vec![base.clone()], true, true);
+        for &s in &[4u8, 0, 3] {
+            let tw = if s == 3 { vec![base.clone()] } else { with(&singles(Loc::G(s), &stv), &base) };
+            b.add("stw", format!("stw r{},{}(r3)", s, disp), vec![p_d(36, s, 3, disp as u32)], &[s, 3], &[], tw.clone(), true, true);
+            b.add("stwu", format!("stwu r{},{}(r3)", s, disp), vec![p_d(37, s, 3, disp as u32)], &[s, 3], &[], tw, true, true);
+        }
+    }
+    b.add("stw", "stw r4,-32768(r3)".to_string(), vec![p_d(36, 4, 3, 0x8000)], &[4, 3], &[], with(&singles(Loc::G(4), &stv), &[(Loc::G(3), MID + 0x8000)]), true, true);
+    for &s in &[4u8, 0] {
+        b.add("stw", format!("stw r{},0x4008(0)", s), vec![p_d(36, s, 0, 0x4008)], &[s, 0], &[], pairs(Loc::G(4), &stv, Loc::G(0), &[0x10, 0xdead_0000]), true, true);
+    }
+    for &(s, disp) in &[(31u8, 0i32), (30, 0), (29, -8), (28, -16), (30, 4), (25, -16)] {
+        b.add("stmw", format!("stmw r{},{}(r3)", s, disp), vec![p_d(47, s, 3, disp as u32)], &[s, 3, 31], &[], vec![base.clone()], true, true);
+    }
+    b.add("stmw", "stmw r30,0x4004(0)".to_string(), vec![p_d(47, 30, 0, 0x4004)], &[30, 31, 0], &[], singles(Loc::G(0), &[0x10, 0xdead_0000]), true, true);
+    // ---- LR / CTR moves
+    for &r in &[3u8, 0, 31] {
+        b.add("mflr", format!("mflr r{}", r), vec![p_spr(339, r, 8)], &[r], &[Loc::Lr, Loc::Ctr], pairs(Loc::Lr, &V5, Loc::G(r), &[0x55]), true, false);
+        b.add("mfctr", format!("mfctr r{}", r), vec![p_spr(339, r, 9)], &[r], &[Loc::Lr, Loc::Ctr], pairs(Loc::Ctr, &V5, Loc::G(r), &[0x55]), true, false);
+        b.add("mtlr", format!("mtlr r{}", r), vec![p_spr(467, r, 8)], &[r], &[Loc::Lr, Loc::Ctr], singles(Loc::G(r), &V7), true, false);
+        b.add("mtctr", format!("mtctr r{}", r), vec![p_spr(467, r, 9)], &[r], &[Loc::Lr, Loc::Ctr], singles(Loc::G(r), &V7), true, false);
+    }
+    ppc_branches(&mut b);
+    b.out
+}
+
+fn ppc_branches(b: &mut B) {
+    let tgt = CODE + 24;
+    // ---- b / bl
+    b.add("b", format!("b 0x{:x}", tgt), vec![p_b(24, false)], &[], &[Loc::Lr], vec![], true, false);
+    b.add("bl", format!("bl 0x{:x}", tgt), vec![p_b(24, true)], &[], &[Loc::Lr], vec![], true, false);
+    b.add("b", format!("nop ; b 0x{:x}", tgt), vec![PNOP, p_b(20, false)], &[], &[Loc::Lr], vec![], true, false);
+    b.add("bl", format!("nop ; bl 0x{:x}", tgt), vec![PNOP, p_b(20, true)], &[], &[Loc::Lr], vec![], true, false);
+    let bis: [u32; 14] = [0, 1, 2, 3, 4, 5, 6, 7, 10, 13, 18, 23, 28, 31];
+    let far = [(Loc::Lr, FAR + 8), (Loc::Ctr, FAR + 16)];
+    // ---- bclr / bcctr
+    for &lk in &[false, true] {
+        let l = if lk { "l" } else { "" };
+        b.add(&format!("blr{}", l), format!("blr{} (bclr{} 20,0)", l, l), vec![p_bclr(20, 0, lk)], &[], &[Loc::Lr, Loc::Ctr], vec![far.to_vec(), vec![(Loc::Lr, tgt), (Loc::Ctr, FAR)], vec![(Loc::Lr, FAR + 7), (Loc::Ctr, FAR)]], true, false);
+        b.add(&format!("bctr{}", l), format!("bctr{} (bcctr{} 20,0)", l, l), vec![p_bcctr(20, 0, lk)], &[], &[Loc::Lr, Loc::Ctr], vec![far.to_vec(), vec![(Loc::Ctr, tgt), (Loc::Lr, FAR)], vec![(Loc::Ctr, FAR + 5), (Loc::Lr, FAR)]], true, false);
+        for &bi in &bis {
+            let bit = Loc::Cr(bi as u8);
+            for &(bo, nm) in &[(12u32, "t"), (4, "f")] {
+                let tw = with(&singles(bit, &[0, 1]), &far);
+                b.add(&format!("bclr{}", l), format!("b{}lr{} {} (bclr{} {},{}) [cr{}-{}]", nm, l, bi, l, bo, bi, bi / 4, CRB[(bi % 4) as usize]), vec![p_bclr(bo, bi, lk)], &[], &[Loc::Lr, Loc::Ctr], tw.clone(), true, false);
+                if bi < 8 || bi == 31 {
+                    b.add(&format!("bcctr{}", l), format!("b{}ctr{} {} (bcctr{} {},{}) [cr{}-{}]", nm, l, bi, l, bo, bi, bi / 4, CRB[(bi % 4) as usize]), vec![p_bcctr(bo, bi, lk)], &[], &[Loc::Lr, Loc::Ctr], tw, true, false);
+                }
+            }
+        }
+        // CTR-decrementing forms: bdnzlr / bdzlr, and combined with a CR bit
+        let ctrs: [u32; 4] = [0, 1, 2, 0x8000_0000];
+        for &(bo, nm) in &[(16u32, "bdnzlr"), (18, "bdzlr")] {
+            let tw = with(&singles(Loc::Ctr, &ctrs), &[(Loc::Lr, FAR + 8)]);
+            b.add(&format!("{}{}", nm, l), format!("{}{} (bclr{} {},0)", nm, l, l, bo), vec![p_bclr(bo, 0, lk)], &[], &[Loc::Lr, Loc::Ctr], tw, true, false);
+        }
+        for &(bo, nm) in &[(0u32, "bdnzflr"), (2, "bdzflr"), (8, "bdnztlr"), (10, "bdztlr")] {
+            for &bi in &[2u32, 5] {
+                let tw = with(&pairs(Loc::Ctr, &[0, 1, 2], Loc::Cr(bi as u8), &[0, 1]), &[(Loc::Lr, FAR + 8)]);
+                b.add(&format!("bclr{}", l), format!("{}{} {} (bclr{} {},{})", nm, l, bi, l, bo, bi), vec![p_bclr(bo, bi, lk)], &[], &[Loc::Lr, Loc::Ctr], tw, true, false);
+            }
+        }
+    }
+    // ---- bc: conditional relative branches on every CR field, alone and behind a nop
+    let names: [(&str, u32, u32); 8] = [("blt", 12, 0), ("bge", 4, 0), ("bgt", 12, 1), ("ble", 4, 1), ("beq", 12, 2), ("bne", 4, 2), ("bso", 12, 3), ("bns", 4, 3)];
+    for &(nm, bo, bit) in &names {
+        for f in 0u32..8 {
+            let bi = 4 * f + bit;
+            let tw = singles(Loc::Cr(bi as u8), &[0, 1]);
+            b.add(nm, format!("{} cr{},0x{:x} (bc {},{})", nm, f, tgt, bo, bi), vec![p_bc(bo, bi, 24, false)], &[], &[Loc::Lr, Loc::Ctr], tw.clone(), true, false);
+            b.add(nm, format!("nop ; {} cr{},0x{:x} (bc {},{})", nm, f, tgt, bo, bi), vec![PNOP, p_bc(bo, bi, 20, false)], &[], &[Loc::Lr, Loc::Ctr], tw.clone(), true, false);
+            if f < 2 {
+                b.add(&format!("{}l", nm), format!("nop ; {}l cr{},0x{:x} (bcl {},{})", nm, f, tgt, bo, bi), vec![PNOP, p_bc(bo, bi, 20, true)], &[], &[Loc::Lr, Loc::Ctr], tw, true, false);
+            }
+        }
+    }
+    let ctrs: [u32; 4] = [0, 1, 2, 0x8000_0000];
+    for &(bo, nm) in &[(16u32, "bdnz"), (18, "bdz")] {
+        b.add(nm, format!("{} 0x{:x} (bc {},0)", nm, tgt, bo), vec![p_bc(bo, 0, 24, false)], &[], &[Loc::Lr, Loc::Ctr], singles(Loc::Ctr, &ctrs), true, false);
+        b.add(nm, format!("nop ; {} 0x{:x} (bc {},0)", nm, tgt, bo), vec![PNOP, p_bc(bo, 0, 20, false)], &[], &[Loc::Lr, Loc::Ctr], singles(Loc::Ctr, &ctrs), true, false);
+        b.add(&format!("{}l", nm), format!("{}l 0x{:x} (bcl {},0)", nm, tgt, bo), vec![p_bc(bo, 0, 24, true)], &[], &[Loc::Lr, Loc::Ctr], singles(Loc::Ctr, &ctrs), true, false);
+        b.add(&format!("{}l", nm), format!("nop ; {}l 0x{:x} (bcl {},0)", nm, tgt, bo), vec![PNOP, p_bc(bo, 0, 20, true)], &[], &[Loc::Lr, Loc::Ctr], singles(Loc::Ctr, &ctrs), true, false);
+    }
+    b.add("bc", format!("nop ; bc 20,0,0x{:x} (branch always)", tgt), vec![PNOP, p_bc(20, 0, 20, false)], &[], &[Loc::Lr, Loc::Ctr], vec![], true, false);
+    // ---- every BO value (including the reserved / hinted patterns for which capstone has no simplified mnemonic)
+    for bo in 0u32..32 {
+        for &bi in &[2u32, 10] {
+            let tw = pairs(Loc::Cr(bi as u8), &[0, 1], Loc::Ctr, &[1, 2, 0]);
+            b.add("bc_any_bo", format!("nop ; bc {},{},0x{:x}", bo, bi, tgt), vec![PNOP, p_bc(bo, bi, 20, false)], &[], &[Loc::Lr, Loc::Ctr], tw.clone(), false, false);
+            b.add("bclr_any_bo", format!("bclr {},{}", bo, bi), vec![p_bclr(bo, bi, false)], &[], &[Loc::Lr, Loc::Ctr], with(&tw, &[(Loc::Lr, FAR + 8)]), false, false);
+            if bo & 4 != 0 {
+                let tw = with(&singles(Loc::Cr(bi as u8), &[0, 1]), &[(Loc::Ctr, FAR + 8), (Loc::Lr, FAR + 16)]);
+                b.add("bcctr_any_bo", format!("bcctr {},{}", bo, bi), vec![p_bcctr(bo, bi, false)], &[], &[Loc::Lr, Loc::Ctr], tw, false, false);
+            }
+        }
+    }
+}
+
+// ------------------------------------------------------------------ base states
+fn base_state(arch: Arch, variant: usize) -> Cpu {
+    let table: [u32; 32] = [0xdead_beef, 0x0000_0001, 0x7fff_ffff, 0x8000_0000, 0xffff_ffff, 0x0000_0000, 0x1234_5678, 0xfedc_ba98,
+        0x8000_0001, 0x7fff_fffe, 0x0000_ffff, 0xffff_0000, 0x0000_8000, 0xffff_8000, 0x00ff_00ff, 0xff00_ff00,
+        0xa5a5_a5a5, 0x5a5a_5a5a, 0xc000_0003, 0x3fff_fffc, 0x0000_0002, 0xffff_fffe, 0x8765_4321, 0x0fed_cba9,
+        0x9000_3000, 0xb004_3000, 0x0000_0010, 0x0000_001f, 0x0000_0020, 0x0000_0021, 0xcafe_f00d, 0x0bad_c0de];
+    let mut c = Cpu { r: [0; 32], hi: 0, lo: 0, lr: 0, ctr: 0, ca: false, cr: 0, mem: [0; DATA_LEN], hilo_undef: false, cr_undef: 0 };
+    for i in 0..32 { c.r[i] = if variant == 0 { table[(i * 7 + 3) % 32] } else { table[(i * 11 + 6) % 32] }; }
+    if arch.is_mips() { c.r[0] = 0; }
+    if variant == 0 {
+        c.hi = 0x8badf00d; c.lo = 0x600dcafe; c.lr = 0xfeed_0000; c.ctr = 0x0000_0003; c.ca = true; c.cr = 0xa5c3_960f;
+    } else {
+        c.hi = 0x0000_0001; c.lo = 0xffff_ffff; c.lr = 0x0000_3000; c.ctr = 0xffff_ffff; c.ca = false; c.cr = !0xa5c3_960fu32;
+    }
+    for i in 0..DATA_LEN { c.mem[i] = if variant == 0 { (0x81u8).wrapping_add((i as u8).wrapping_mul(0x3b)) } else { (0x7eu8).wrapping_sub((i as u8).wrapping_mul(0x1d)) }; }
+    c
+}
+
+// ------------------------------------------------------------------ running the lifted code
+fn to_bytes(arch: Arch, words: &[u32]) -> Vec<u8> {
+    let mut v = Vec::new();
+    for w in words { if arch.big() { v.extend_from_slice(&w.to_be_bytes()) } else { v.extend_from_slice(&w.to_le_bytes()) } }
+    v
+}
+
+fn lift(arch: Arch, words: &[u32], debug: bool) -> Result<(RC<il::Program>, RC<memory::backing::Memory>), String> {
+    let mut code: Vec<u32> = words.to_vec();
+    while code.len() < CODE_WORDS { code.push(arch.nop()); }
+    let far: Vec<u32> = vec![arch.nop(); FAR_WORDS];
+    let mut backing = memory::backing::Memory::new(arch.endian());
+    let perm = memory::MemoryPermissions::EXECUTE | memory::MemoryPermissions::READ;
+    backing.set_memory(CODE as u64, to_bytes(arch, &code), perm);
+    backing.set_memory(FAR as u64, to_bytes(arch, &far), perm);
+    let function = match arch {
+        Arch::Mips => TMips::new().translate_function(&backing, CODE as u64),
+        Arch::Mipsel => TMipsel::new().translate_function(&backing, CODE as u64),
+        Arch::Ppc => TPpc::new().translate_function(&backing, CODE as u64),
+    }.map_err(|e| format!("{}", e))?;
+    if debug { eprintln!("{}", function.control_flow_graph()); }
+    let mut program = il::Program::new();
+    program.add_function(function);
+    Ok((RC::new(program), RC::new(backing)))
+}
+
+fn run(arch: Arch, program: &RC<il::Program>, backing: &RC<memory::backing::Memory>, nwords: usize, cpu: &Cpu) -> Result<(State, u32), String> {
+    let function = program.function(0).ok_or("no function")?;
+    let cfg = function.control_flow_graph();
+    let entry = cfg.entry().ok_or("function without entry")?;
+    let block = cfg.block(entry).map_err(|e| format!("{}", e))?;
+    let location = match block.instructions().first() {
+        None => il::ProgramLocation::new(Some(0), il::FunctionLocation::EmptyBlock(entry)),
+        Some(i) => il::ProgramLocation::new(Some(0), il::FunctionLocation::Instruction(entry, i.index())),
+    };
+    let mut mem = Memory::new_with_backing(arch.endian(), backing.clone());
+    for i in 0..DATA_LEN { mem.store(DATA as u64 + i as u64, il::const_(cpu.mem[i] as u64, 8)).map_err(|e| format!("{}", e))?; }
+    let mut state = State::new(mem);
+    for i in 0..32u8 { state.set_scalar(loc_name(arch, Loc::G(i)), il::const_(cpu.r[i as usize] as u64, 32)); }
+    if arch.is_mips() {
+        state.set_scalar("$hi", il::const_(cpu.hi as u64, 32));
+        state.set_scalar("$lo", il::const_(cpu.lo as u64, 32));
+    } else {
+        state.set_scalar("lr", il::const_(cpu.lr as u64, 32));
+        state.set_scalar("ctr", il::const_(cpu.ctr as u64, 32));
+        state.set_scalar("carry", il::const_(cpu.ca as u64, 1));
+        for i in 0..32u8 { state.set_scalar(loc_name(arch, Loc::Cr(i)), il::const_(cpu.crbit(i as u32) as u64, 1)); }
+    }
+    let arch_rc: RC<dyn architecture::Architecture> = match arch {
+        Arch::Mips => RC::new(architecture::Mips::new()),
+        Arch::Mipsel => RC::new(architecture::Mipsel::new()),
+        Arch::Ppc => RC::new(architecture::Ppc::new()),
+    };
+    let is_pad = |a: u64| -> bool {
+        let a = a as u32;
+        (a & 3 == 0) && ((a >= CODE + 4 * nwords as u32 && a < CODE + 4 * CODE_WORDS as u32) || (a >= FAR && a < FAR + 4 * FAR_WORDS as u32))
+    };
+    let mut driver = Driver::new(program.clone(), location, state, arch_rc);
+    let mut steps = 0;
+    let pc;
+    loop {
+        let at = driver.location().apply(driver.program()).map_err(|e| format!("{}", e))?.address();
+        if let Some(a) = at { if a <= 0xffff_ffff && is_pad(a) { pc = a as u32; break; } }
+        steps += 1;
+        if steps > 400 { return Err("did not reach a landing pad within 400 IL steps".to_string()); }
+        driver = driver.step().map_err(|e| format!("step: {}", e))?;
+    }
+    Ok((driver.state().clone(), pc))
+}
+
+/// every location in which the lifted code and the model differ: (where, expected, got)
+fn compare(arch: Arch, exp: &Cpu, exp_pc: u32, st: &State, got_pc: u32) -> Vec<(String, String, String)> {
+    let mut out = Vec::new();
+    if exp_pc != got_pc { out.push(("pc".to_string(), format!("0x{:x}", exp_pc), format!("0x{:x}", got_pc))); }
+    let mut check = |l: Loc, bits: usize, skip_value: bool| {
+        let name = loc_name(arch, l);
+        let e = exp.get(l);
+        match st.get_scalar(&name) {
+            None => out.push((name, format!("0x{:x}", e), "scalar vanished".to_string())),
+            Some(c) => {
+                if c.bits() != bits { out.push((name, format!("0x{:x} (width {})", e, bits), format!("width {} value 0x{:x}", c.bits(), c.value_u64().unwrap_or(u64::MAX)))); }
+                else if !skip_value && c.value_u64() != Some(e as u64) { out.push((name, format!("0x{:x}", e), format!("0x{:x}", c.value_u64().unwrap_or(u64::MAX)))); }
+            }
+        }
+    };
+    for i in 0..32u8 { if arch.is_mips() && i == 0 { continue; } check(Loc::G(i), 32, false); }
+    if arch.is_mips() {
+        check(Loc::Hi, 32, exp.hilo_undef);
+        check(Loc::Lo, 32, exp.hilo_undef);
+    } else {
+        check(Loc::Lr, 32, false);
+        check(Loc::Ctr, 32, false);
+        check(Loc::Ca, 1, false);
+        for i in 0..32u8 { check(Loc::Cr(i), 1, (exp.cr_undef >> (31 - i as u32)) & 1 == 1); }
+    }
+    for i in 0..DATA_LEN {
+        let got = match st.memory().load(DATA as u64 + i as u64, 8) { Ok(Some(c)) => c.value_u64().map(|v| format!("0x{:02x}", v)).unwrap_or("?".to_string()), Ok(None) => "no value".to_string(), Err(e) => format!("error {}", e) };
+        let e = format!("0x{:02x}", exp.mem[i]);
+        if got != e { out.push((format!("mem[0x{:x}]", DATA as usize + i), e, got)); }
+    }
+    out
+}
+
+fn esc(s: &str) -> String { s.replace('\\', "/").replace('"', "'").replace('`', "'").replace('\n', " ") }
+
+fn state_json(arch: Arch, c: &Cpu, show: &[Loc], mem: bool) -> String {
+    let mut v: Vec<String> = Vec::new();
+    for &l in show {
+        if arch.is_mips() && l == Loc::G(0) { continue; }
+        match l { Loc::Ca | Loc::Cr(_) => v.push(format!("\"{}\":{}", loc_name(arch, l), c.get(l))), _ => v.push(format!("\"{}\":\"0x{:x}\"", loc_name(arch, l), c.get(l))) }
+    }
+    if mem { v.push(format!("\"mem@0x{:x}\":\"{}\"", DATA, c.mem.iter().map(|b| format!("{:02x}", b)).collect::<Vec<_>>().join(" "))); }
+    format!("{{{}}}", v.join(","))
+}
+
+/// the model's own consistency: lwl+lwr / swl+swr in the canonical order access the unaligned word
+fn selfcheck() -> Result<(), String> {
+    for big in [true, false] {
+        for k in 0u32..4 {
+            let arch = if big { Arch::Mips } else { Arch::Mipsel };
+            let mut c = base_state(arch, 0);
+            let a = MID + k;
+            c.r[T0 as usize] = a;
+            c.r[T1 as usize] = 0x5555_5555;
+            let (dl, dr) = if big { (0u32, 3u32) } else { (3, 0) };
+            let want = mrd(&c, a, 4, big).unwrap();
+            let pc = mips_run(&mut c, &[m_i(0x22, T1, T0, dl), m_i(0x26, T1, T0, dr)], big).map_err(|_| "lwl/lwr model refused".to_string())?;
+            if c.r[T1 as usize] != want || pc != CODE + 8 { return Err(format!("lwl+lwr big={} k={}: 0x{:x} != 0x{:x}", big, k, c.r[T1 as usize], want)); }
+            let mut c = base_state(arch, 0);
+            let before = c.mem;
+            c.r[T0 as usize] = a;
+            c.r[T1 as usize] = 0xa1b2_c3d4;
+            mips_run(&mut c, &[m_i(0x2a, T1, T0, dl), m_i(0x2e, T1, T0, dr)], big).map_err(|_| "swl/swr model refused".to_string())?;
+            let mut want = base_state(arch, 0);
+            want.mem = before;
+            mwr(&mut want, a, 4, 0xa1b2_c3d4, big).unwrap();
+            if c.mem != want.mem { return Err(format!("swl+swr big={} k={}: {:02x?} != {:02x?}", big, k, c.mem, want.mem)); }
+        }
+    }
+    // rlwinm mask and srawi carry against the worked examples of the PEM
+    if ppc_mask(0, 31) != 0xffff_ffff || ppc_mask(0, 0) != 0x8000_0000 || ppc_mask(31, 31) != 1 || ppc_mask(0, 29) != 0xffff_fffc || ppc_mask(30, 1) != 0xc000_0003 || ppc_mask(16, 15) != 0xffff_ffff {
+        return Err("ppc_mask".to_string());
+    }
+    let mut c = base_state(Arch::Ppc, 0);
+    c.r[4] = 0x9000_3000;
+    ppc_run(&mut c, &[0x5486_103a]).map_err(|_| "rlwinm refused".to_string())?; // rlwinm r6,r4,2,0,29 (PEM example)
+    if c.r[6] != 0x4000_c000 { return Err(format!("rlwinm example: 0x{:x}", c.r[6])); }
+    Ok(())
+}
+
 fn main() {
-    println!("stub");
+    std::panic::set_hook(Box::new(|_| {}));
+    if let Err(e) = selfcheck() { println!("{{\"model_selfcheck_failed\":\"{}\"}}", esc(&e)); std::process::exit(2); }
+    let only = std::env::var("C02_ONLY").ok();
+    let debug = std::env::var("C02_DEBUG").is_ok();
+    let limit: u64 = std::env::var("C02_PRINT").ok().and_then(|s| s.parse().ok()).unwrap_or(3);
+    let (mut evals, mut found, mut encodings, mut rejected, mut skipped) = (0u64, 0u64, 0u64, 0u64, 0u64);
+    let mut rejected_examples: Vec<String> = Vec::new();
+    let mut rejected_seen: Vec<String> = Vec::new();
+    let mut rejected_ops: BTreeMap<String, u64> = BTreeMap::new();
+    let mut per_op: BTreeMap<String, (u64, u64, u64, u64)> = BTreeMap::new(); // encodings, evaluations, disagreements, printed
+    let mut printed_asm: std::collections::BTreeSet<(String, String)> = std::collections::BTreeSet::new();
+    for arch in [Arch::Mips, Arch::Mipsel, Arch::Ppc] {
+        let cases = if arch.is_mips() { mips_cases() } else { ppc_cases() };
+        let bases = [base_state(arch, 0), base_state(arch, 1)];
+        for case in cases {
+            let key = format!("{}.{}", arch.key(), case.op);
+            if let Some(o) = &only { if !key.contains(o.as_str()) { continue; } }
+            encodings += 1;
+            per_op.entry(key.clone()).or_insert((0, 0, 0, 0)).0 += 1;
+            let hex: Vec<String> = to_bytes(arch, &case.words).iter().map(|b| format!("{:02x}", b)).collect();
+            let hex = hex.join(" ");
+            let mut report = |st: &Cpu, diffs: Vec<(String, String, String)>, per_op: &mut BTreeMap<String, (u64, u64, u64, u64)>, found: &mut u64| {
+                *found += 1;
+                let e = per_op.get_mut(&key).unwrap();
+                e.2 += 1;
+                // prefer different instruction texts among the printed examples of an op
+                if e.3 < limit && !printed_asm.contains(&(key.clone(), case.asm.clone())) {
+                    printed_asm.insert((key.clone(), case.asm.clone()));
+                    e.3 += 1;
+                    let (w, x, g) = &diffs[0];
+                    let also: Vec<String> = diffs.iter().skip(1).take(8).map(|(w, x, g)| format!("\"{}: expected {} got {}\"", esc(w), esc(x), esc(g))).collect();
+                    println!("{{\"witness\":true,\"op\":\"{}\",\"arch\":\"{}\",\"bytes\":\"{}\",\"asm\":\"{}\",\"state\":{},\"where\":\"{}\",\"expected\":\"{}\",\"got\":\"{}\",\"also\":[{}]}}",
+                        key, arch.key(), hex, esc(&case.asm), state_json(arch, st, &case.show, case.mem), esc(w), esc(x), esc(g), also.join(","));
+                }
+            };
+            if debug { eprintln!("=== {} {} [{}]", key, case.asm, hex); }
+            let lifted = catch_unwind(AssertUnwindSafe(|| lift(arch, &case.words, debug)));
+            let (program, backing) = match lifted {
+                Ok(Ok(p)) => p,
+                Ok(Err(e)) => {
+                    if e.contains("Sort") {
+                        evals += 1; per_op.get_mut(&key).unwrap().1 += 1;
+                        report(&bases[0], vec![("lifting".to_string(), "Ok".to_string(), format!("Err({})", e))], &mut per_op, &mut found);
+                    } else {
+                        rejected += 1;
+                        if debug { eprintln!("REJECTED: {}", e); }
+                        *rejected_ops.entry(key.clone()).or_insert(0) += 1;
+                        // list one example per op key and error kind
+                        let kind = case.op.clone();
+                        let room = if arch.is_mips() { 4 } else { 12 };
+                        if !rejected_seen.contains(&kind) && rejected_examples.len() < room {
+                            rejected_seen.push(kind);
+                            rejected_examples.push(format!("{{\"op\":\"{}\",\"bytes\":\"{}\",\"asm\":\"{}\",\"error\":\"{}\"}}", key, hex, esc(&case.asm), esc(&e)));
+                        }
+                    }
+                    continue;
+                }
+                Err(_) => {
+                    evals += 1; per_op.get_mut(&key).unwrap().1 += 1;
+                    report(&bases[0], vec![("lifting".to_string(), "Ok".to_string(), "panic".to_string())], &mut per_op, &mut found);
+                    continue;
+                }
+            };
+            let mut states: Vec<Cpu> = Vec::new();
+            for (ti, t) in case.tweaks.iter().enumerate() {
+                for (bi, base) in bases.iter().enumerate() {
+                    if bi == 1 && !case.both && ti != 0 { continue; }
+                    let mut s = base.clone();
+                    for &(l, v) in t { if !(arch.is_mips() && l == Loc::G(0)) { s.set(l, v); } }
+                    states.push(s);
+                }
+            }
+            for st in &states {
+                let mut exp = st.clone();
+                let r = if arch.is_mips() { mips_run(&mut exp, &case.words, arch.big()) } else { ppc_run(&mut exp, &case.words) };
+                let exp_pc = match r { Ok(pc) => pc, Err(()) => { skipped += 1; continue; } };
+                evals += 1;
+                per_op.get_mut(&key).unwrap().1 += 1;
+                let got = catch_unwind(AssertUnwindSafe(|| run(arch, &program, &backing, case.words.len(), st)));
+                match got {
+                    Ok(Ok((state, pc))) => {
+                        let d = compare(arch, &exp, exp_pc, &state, pc);
+                        if !d.is_empty() { report(st, d, &mut per_op, &mut found); }
+                    }
+                    Ok(Err(e)) => report(st, vec![("execution".to_string(), format!("reaches the landing pad 0x{:x}", exp_pc), e)], &mut per_op, &mut found),
+                    Err(_) => report(st, vec![("execution".to_string(), format!("reaches the landing pad 0x{:x}", exp_pc), "panic".to_string())], &mut per_op, &mut found),
+                }
+            }
+        }
+    }
+    let per: Vec<String> = per_op.iter().map(|(k, v)| format!("\"{}\":{{\"encodings\":{},\"evaluations\":{},\"disagreements\":{}}}", k, v.0, v.1, v.2)).collect();
+    let rej: Vec<String> = rejected_ops.iter().map(|(k, v)| format!("\"{}\":{}", k, v)).collect();
+    println!("{{\"summary\":true,\"evaluations\":{},\"encodings\":{},\"disagreements\":{},\"skipped_undefined\":{},\"rejected_encodings\":{},\"rejected_by_op\":{{{}}},\"rejected_examples\":[{}],\"per_op\":{{{}}}}}",
+        evals, encodings, found, skipped, rejected, rej.join(","), rejected_examples.join(","), per.join(","));
 }
